@@ -50,6 +50,9 @@ func runC18(e *env) error {
 			}
 			sc.Imports, sc.Decls = sh.Imports, sh.Decls
 			sc.req, sc.unsup = gvx.GenRequest(0, oc.Conv)
+			if len(sc.unsup) == 0 && len(oc.Conv.OutputRaw) == 0 {
+				gvx.AddLifted(sc.req, oc)
+			}
 			mu.Lock()
 			cases = append(cases, sc)
 			mu.Unlock()
@@ -147,8 +150,17 @@ func runC18(e *env) error {
 		return err
 	}
 	e.rep.Eval(len(cases))
+	var sym symAcc
+	defer func() { sym.report(e, "C18") }()
 	for i, c := range cases {
 		conv := c.oc.Conv
+		if sr := gvx.SymOf(answers[i]); sr != nil && len(c.unsup) == 0 {
+			sym.equal += sr.Equal
+			sym.unliftable += len(sr.Unliftable)
+			for _, d := range sr.Diffs {
+				sym.diffs = append(sym.diffs, map[string]any{"case": c, "method": d.Method, "model_term": d.Model, "emitted_code_term": d.Impl})
+			}
+		}
 		reach := gvx.ReachablePackages(conv)
 		nontrivial := len(c.Imports) > 1 || len(c.Decls) > 2
 		if nontrivial {
